@@ -110,6 +110,20 @@ func Walk(ctx context.Context, fileSystem fs.FS, prefix, delimiter, marker strin
 				skipflag = fs.SkipDir
 			} else {
 				if delimiter == "" {
+					// directory objects obey marker and prefix like
+					// any other key
+					if !pastMarker {
+						if path+"/" == marker {
+							pastMarker = true
+							return skipflag
+						}
+						if path+"/" < marker {
+							return skipflag
+						}
+					}
+					if prefix != "" && !strings.HasPrefix(path+"/", prefix) {
+						return skipflag
+					}
 					dirobj, err := getObj(path+"/", d)
 					if err == ErrSkipObj {
 						return skipflag
@@ -123,7 +137,7 @@ func Walk(ctx context.Context, fileSystem fs.FS, prefix, delimiter, marker strin
 					}
 					objects = append(objects, dirobj)
 					if (len(objects) + len(cpmap)) == int(max) {
-						newMarker = path
+						newMarker = path + "/"
 						pastMax = true
 					}
 
